@@ -11,6 +11,9 @@ VARIABLES l, viol, nsteps, ndiv, div,
           racked     \* observed ground truth: [batch -> peers whose ACK answered the frame carrying it]
 tvars == <<vars, l, viol, nsteps, ndiv, div, racked>>
 TInit == Init /\ l = 1 /\ viol = {} /\ nsteps = 0 /\ ndiv = 0 /\ div = <<>> /\ racked = [b \in 1..NBatches |-> {}]
+\* the report keeps the first 60 monitor failures (a set that grows with every record makes every later state larger)
+Lim(S) == IF Cardinality(viol) >= 60 THEN {} ELSE S
+
 IntEnabled == (head = 0 /\ NextUnreleased <= sealed) \/ (head # 0 /\ {x \in Others : <<head, x>> \in done} \ counted # {})
 TNext ==
   \/ /\ l <= Len(Rec) /\ IntEnabled /\ (Take \/ Count) /\ UNCHANGED <<l, viol, nsteps, ndiv, div, racked>>
@@ -28,8 +31,8 @@ TNext ==
             [] e.t = "qn" /\ e.ev = "observed" ->
                  LET r == e.released
                      bad == {i \in 1..Len(r) : r[i] \notin 1..NBatches \/ Stake[Me] + Sum(racked[r[i]]) < Quorum} IN
-                 /\ viol' = viol \cup (IF bad = {} THEN {} ELSE {<<"C12.ReleasedWithQuorumOfAcks", l>>})
-                                 \cup (IF "panic" \in DOMAIN e THEN {<<"C12.Panicked", l>>} ELSE {})
+                 /\ viol' = viol \cup Lim(IF bad = {} THEN {} ELSE {<<"C12.ReleasedWithQuorumOfAcks", l>>})
+                                 \cup Lim(IF "panic" \in DOMAIN e THEN {<<"C12.Panicked", l>>} ELSE {})
                  /\ ndiv' = IF r = released THEN ndiv ELSE ndiv + 1
                  /\ div' = IF r = released \/ Len(div) >= 10 THEN div ELSE Append(div, [rec |-> l, kind |-> "release", want |-> released, got |-> r])
                  /\ UNCHANGED <<vars, racked>> /\ nsteps' = nsteps + 1
